@@ -23,29 +23,52 @@ import (
 //	A x U = A,  |A| x U = U,  U x U = U,  Abs(U) = U,  Neg(U) = -U
 //	phi(u, Neg(u)) with u : U, the negation taken exactly when IsNegative(a) for a : A  =  A
 //
-// through phis, helper results (every return of the helper) and tuple results.  A contribution that can be U, |A| or
+// through phis, helper results (every return of the helper, parameters bound to the arguments of the call; a pair
+// of returns `return q.Neg()` under IsNegative(a) / `return q` counts like the phi) and tuple results.  A contribution that can be U, |A| or
 // -U on some path is a finding (the posting counts with the wrong sign whenever its amount is negative: a sale with a
 // total cost is reported unbalanced by twice its value, and one booked with the wrong sign is accepted).  Values the
 // analysis cannot classify (other arithmetic) are not judged.
 func ruleBalanceSign(c *Ctx) {
 	type cls = map[string]bool
-	fieldPath := func(v ssa.Value) [][2]string {
+	// sctx: the call a function body is looked at for (parameters are bound to that call's arguments)
+	type sctx struct {
+		call   *ssa.Call
+		parent *sctx
+	}
+	bindParam := func(p *ssa.Parameter, cx *sctx) (ssa.Value, *sctx, bool) {
+		if cx == nil || cx.call == nil || p.Parent() == nil {
+			return nil, nil, false
+		}
+		cal := cx.call.Call.StaticCallee()
+		if cal != p.Parent() {
+			return nil, nil, false
+		}
+		args := cx.call.Call.Args
+		for i, q := range cal.Params {
+			if q == p && i < len(args) {
+				return args[i], cx.parent, true
+			}
+		}
+		return nil, nil, false
+	}
+	// fieldPath: the (owner type, field) pairs from a loaded value outwards, through parameters bound by the context
+	fieldPath := func(v ssa.Value, cx *sctx) ([][2]string, types.Type) {
 		var out [][2]string
-		for i := 0; i < 12; i++ {
+		for i := 0; i < 24; i++ {
 			switch x := v.(type) {
 			case *ssa.UnOp:
 				if x.Op != token.MUL {
-					return out
+					return out, v.Type()
 				}
 				v = x.X
 			case *ssa.FieldAddr:
 				pt, ok := x.X.Type().Underlying().(*types.Pointer)
 				if !ok {
-					return out
+					return out, v.Type()
 				}
 				st, ok := pt.Elem().Underlying().(*types.Struct)
 				if !ok {
-					return out
+					return out, v.Type()
 				}
 				owner := types.TypeString(pt.Elem(), func(*types.Package) string { return "" })
 				out = append(out, [2]string{owner, st.Field(x.Field).Name()})
@@ -53,113 +76,156 @@ func ruleBalanceSign(c *Ctx) {
 			case *ssa.Field:
 				st, ok := x.X.Type().Underlying().(*types.Struct)
 				if !ok {
-					return out
+					return out, v.Type()
 				}
 				owner := types.TypeString(x.X.Type(), func(*types.Package) string { return "" })
 				out = append(out, [2]string{owner, st.Field(x.Field).Name()})
 				v = x.X
 			case *ssa.IndexAddr:
 				v = x.X
+			case *ssa.Parameter:
+				a, pcx, ok := bindParam(x, cx)
+				if !ok {
+					return out, v.Type()
+				}
+				v, cx = a, pcx
 			default:
-				return out
+				return out, v.Type()
 			}
 		}
-		return out
+		return out, v.Type()
+	}
+	classOfPath := func(p [][2]string) string {
+		if len(p) == 0 || p[0] != [2]string{"Amount", "Quantity"} {
+			return ""
+		}
+		for _, e := range p[1:] {
+			if e == [2]string{"Posting", "Cost"} || e == [2]string{"Cost", "Amount"} {
+				return "U"
+			}
+		}
+		if len(p) == 2 && p[1] == [2]string{"Posting", "Amount"} {
+			return "A"
+		}
+		return ""
 	}
 	isDecimalMethod := func(call *ssa.Call, name string) bool {
 		cal := call.Call.StaticCallee()
 		return cal != nil && cal.Name() == name && cal.Signature.Recv() != nil && typeHasSuffix(cal.Signature.Recv().Type(), "decimal.Decimal")
 	}
-	memo := map[ssa.Value]cls{}
-	var classify func(v ssa.Value, depth int) cls
-	classify = func(v ssa.Value, depth int) cls {
-		v = stripConv(v)
-		if r, ok := memo[v]; ok {
-			return r
+	type key struct {
+		v  ssa.Value
+		cx *sctx
+	}
+	active := map[key]bool{}
+	var classify func(v ssa.Value, cx *sctx, depth int) cls
+	// negatedByAmount: `neg` is Neg(plain) for a cost-only value, evaluated exactly when the amount is negative
+	negatedByAmount := func(plain, neg ssa.Value, cx *sctx, depth int) (string, bool) {
+		nc, ok := stripConv(neg).(*ssa.Call)
+		if !ok || !isDecimalMethod(nc, "Neg") || stripConv(nc.Call.Args[0]) != stripConv(plain) {
+			return "", false
 		}
+		pc := classify(plain, cx, depth+1)
+		if len(pc) != 1 || !pc["U"] {
+			return "", false
+		}
+		for _, cc := range controlCondsPol(nc.Block()) {
+			tc, ok := stripConv(cc.Cond).(*ssa.Call)
+			if !ok || !isDecimalMethod(tc, "IsNegative") {
+				continue
+			}
+			rc := classify(tc.Call.Args[0], cx, depth+1)
+			if len(rc) == 1 && rc["A"] {
+				if cc.Taken {
+					return "A", true
+				}
+				return "-A", true
+			}
+		}
+		return "", false
+	}
+	// results: the classes of result #idx of a module function called by `call`
+	results := func(call *ssa.Call, idx int, cx *sctx, depth int) cls {
 		out := cls{}
-		memo[v] = out // cycles through loop phis contribute nothing new
-		if depth > 10 {
+		cal := call.Call.StaticCallee()
+		if cal == nil || !inModule(cal) || len(cal.Blocks) == 0 {
 			return out
 		}
+		ncx := &sctx{call: call, parent: cx}
+		var rets []ssa.Value
+		for _, b := range cal.Blocks {
+			if ret, ok := lastInstr(b).(*ssa.Return); ok && idx < len(ret.Results) {
+				rets = append(rets, ret.Results[idx])
+			}
+		}
+		used := map[int]bool{}
+		for i := range rets {
+			for j := range rets {
+				if i == j || used[i] || used[j] {
+					continue
+				}
+				if k, ok := negatedByAmount(rets[i], rets[j], ncx, depth); ok {
+					// the plain return is taken when the negating one is not: both together carry the amount's sign
+					out[k] = true
+					used[i], used[j] = true, true
+				}
+			}
+		}
+		for i, r := range rets {
+			if !used[i] {
+				for k := range classify(r, ncx, depth+1) {
+					out[k] = true
+				}
+			}
+		}
+		return out
+	}
+	classify = func(v ssa.Value, cx *sctx, depth int) cls {
+		v = stripConv(v)
+		out := cls{}
+		k := key{v, cx}
+		if active[k] || depth > 14 {
+			return out
+		}
+		active[k] = true
+		defer delete(active, k)
 		add := func(s cls) {
 			for k := range s {
 				out[k] = true
 			}
 		}
 		switch x := v.(type) {
+		case *ssa.Parameter:
+			if a, pcx, ok := bindParam(x, cx); ok {
+				add(classify(a, pcx, depth+1))
+			}
 		case *ssa.UnOp:
 			if x.Op == token.MUL {
-				p := fieldPath(x)
-				if len(p) >= 2 && p[0] == [2]string{"Amount", "Quantity"} {
-					hasCost, viaAmount := false, false
-					for _, e := range p[1:] {
-						if e == [2]string{"Posting", "Cost"} {
-							hasCost = true
-						}
-					}
-					viaAmount = len(p) == 2 && p[1] == [2]string{"Posting", "Amount"}
-					switch {
-					case hasCost:
-						out["U"] = true
-					case viaAmount:
-						out["A"] = true
-					}
+				p, _ := fieldPath(x, cx)
+				if k := classOfPath(p); k != "" {
+					out[k] = true
 				}
 			}
 		case *ssa.Field:
-			p := fieldPath(x)
-			if len(p) >= 2 && p[0] == [2]string{"Amount", "Quantity"} {
-				for _, e := range p[1:] {
-					if e == [2]string{"Posting", "Cost"} {
-						out["U"] = true
-					}
-				}
-				if len(out) == 0 && len(p) == 2 && p[1] == [2]string{"Posting", "Amount"} {
-					out["A"] = true
-				}
+			p, _ := fieldPath(x, cx)
+			if k := classOfPath(p); k != "" {
+				out[k] = true
 			}
 		case *ssa.Phi:
 			if len(x.Edges) == 2 {
 				for i := 0; i < 2; i++ {
-					plain, neg := stripConv(x.Edges[i]), stripConv(x.Edges[1-i])
-					nc, ok := neg.(*ssa.Call)
-					if !ok || !isDecimalMethod(nc, "Neg") || stripConv(nc.Call.Args[0]) != plain {
-						continue
-					}
-					pc := classify(plain, depth+1)
-					if len(pc) != 1 || !pc["U"] {
-						continue
-					}
-					for _, cc := range controlCondsPol(nc.Block()) {
-						tc, ok := stripConv(cc.Cond).(*ssa.Call)
-						if !ok || !isDecimalMethod(tc, "IsNegative") {
-							continue
-						}
-						rc := classify(tc.Call.Args[0], depth+1)
-						if len(rc) == 1 && rc["A"] {
-							if cc.Taken {
-								out["A"] = true
-							} else {
-								out["-A"] = true
-							}
-							return out
-						}
+					if k, ok := negatedByAmount(x.Edges[i], x.Edges[1-i], cx, depth); ok {
+						out[k] = true
+						return out
 					}
 				}
 			}
 			for _, e := range x.Edges {
-				add(classify(e, depth+1))
+				add(classify(e, cx, depth+1))
 			}
 		case *ssa.Extract:
 			if call, ok := x.Tuple.(*ssa.Call); ok {
-				if cal := call.Call.StaticCallee(); cal != nil && inModule(cal) {
-					for _, b := range cal.Blocks {
-						if ret, ok := lastInstr(b).(*ssa.Return); ok && x.Index < len(ret.Results) {
-							add(classify(ret.Results[x.Index], depth+1))
-						}
-					}
-				}
+				add(results(call, x.Index, cx, depth))
 			}
 		case *ssa.Call:
 			cal := x.Call.StaticCallee()
@@ -167,16 +233,12 @@ func ruleBalanceSign(c *Ctx) {
 				break
 			}
 			if inModule(cal) {
-				for _, b := range cal.Blocks {
-					if ret, ok := lastInstr(b).(*ssa.Return); ok && len(ret.Results) == 1 {
-						add(classify(ret.Results[0], depth+1))
-					}
-				}
+				add(results(x, 0, cx, depth))
 				break
 			}
 			switch {
 			case isDecimalMethod(x, "Abs"):
-				for k := range classify(x.Call.Args[0], depth+1) {
+				for k := range classify(x.Call.Args[0], cx, depth+1) {
 					switch k {
 					case "A", "-A", "|A|":
 						out["|A|"] = true
@@ -185,7 +247,7 @@ func ruleBalanceSign(c *Ctx) {
 					}
 				}
 			case isDecimalMethod(x, "Neg"):
-				for k := range classify(x.Call.Args[0], depth+1) {
+				for k := range classify(x.Call.Args[0], cx, depth+1) {
 					switch k {
 					case "A":
 						out["-A"] = true
@@ -198,7 +260,7 @@ func ruleBalanceSign(c *Ctx) {
 					}
 				}
 			case isDecimalMethod(x, "Mul"):
-				l, r := classify(x.Call.Args[0], depth+1), classify(x.Call.Args[1], depth+1)
+				l, r := classify(x.Call.Args[0], cx, depth+1), classify(x.Call.Args[1], cx, depth+1)
 				for a := range l {
 					for b := range r {
 						p := []string{a, b}
@@ -247,7 +309,24 @@ func ruleBalanceSign(c *Ctx) {
 				if contrib == nil {
 					continue
 				}
-				cl := classify(contrib, 0)
+				// a sum filled inside a helper is looked at for each of its calls
+				var cxs []*sctx
+				if sites := (cgView{c}).callersOf(f); len(sites) > 0 {
+					for _, s := range sites {
+						if sc, ok := s.(*ssa.Call); ok {
+							cxs = append(cxs, &sctx{call: sc})
+						}
+					}
+				}
+				if len(cxs) == 0 {
+					cxs = []*sctx{nil}
+				}
+				cl := cls{}
+				for _, cx := range cxs {
+					for k := range classify(contrib, cx, 0) {
+						cl[k] = true
+					}
+				}
 				if len(cl) == 0 {
 					continue
 				}
